@@ -57,7 +57,9 @@ func (e Expectation) AssertAlgorithm(alg string) error {
 }
 
 func (e Expectation) AssertIssuer(issuer string) error {
-	if !slices.Contains(e.TrustedIssuers, issuer) {
+	// a token which does not name its issuer has no issuer which could be trusted, even if the list
+	// of trusted issuers contains an empty entry (e.g. taken from a metadata document without issuer)
+	if len(issuer) == 0 || !slices.Contains(e.TrustedIssuers, issuer) {
 		return errorchain.NewWithMessagef(ErrAssertion, "issuer %s is not trusted", issuer)
 	}
 
